@@ -300,3 +300,7 @@ PROPS["C15"].update(
     explanation=PROPS["C15"]["explanation"] + " Two statement blocks of update()'s per-worker loop are additionally proved: the "
                 "parsing parameters force the state modes (ra / ff / fi) and name the current vm and worker whatever the command "
                 "line says, and a worker that cannot host the vm variant is skipped without ending the loop (E1).")
+
+# bridging of equivalent nodes is what makes occupancy visible across workers (C04)
+PROPS["C04"]["modules"] = list(PROPS["C04"]["modules"]) + ["contracts.graph_clones", "contracts.update_tool"]
+PROPS["C09"]["modules"] = list(PROPS["C09"]["modules"]) + ["contracts.update_tool"]
